@@ -424,6 +424,15 @@ def _gen_cases(tier):
         out.append(("special:" + name, t))
     for name, t in escaping_terms():
         out.append((name, t))
+    # every spine term next to a letter that is an element symbol - in the same row and in a neighbouring table cell: the chemistry
+    # pass marks and un-marks what it finds there, and its clean-up runs on the finished tree
+    from terms import mi as mi_, mo as mo_, row as row_, el as el_
+    for sh in shapes:
+        if sh is None:
+            continue
+        nm = terms.shape_name(sh)
+        out.append(("chemctx-row:" + nm, row_(mi_("C"), mo_("="), terms.build(sh, terms.Filler("mixed")))))
+        out.append(("chemctx-cells:" + nm, el_("mtable", el_("mtr", el_("mtd", mi_("C")), el_("mtd", mo_("=")), el_("mtd", terms.build(sh, terms.Filler("mixed")))))))
     # runs of two to four identical single-character tokens (the shapes the token-merging passes look for: blanks, primes, dots, digits,
     # letters, bars, dashes) in front of a leaf, a non-leaf element or nothing, and after nothing, a leaf or a non-leaf element
     from terms import mi, mn, mo, mtext, row, el
